@@ -3,7 +3,7 @@ use crate::matcher::Matcher;
 use crate::source::Content;
 use crate::{Doc, Language, Node, StrDoc};
 use std::borrow::Cow;
-use std::collections::HashMap;
+use std::collections::{HashMap, HashSet};
 
 use crate::replacer::formatted_slice;
 
@@ -114,12 +114,37 @@ impl<'tree, D: Doc> MetaVarEnv<'tree, D> {
     var_matchers: &HashMap<MetaVariableID, M>,
   ) -> bool {
     let mut env = Cow::Borrowed(self);
-    for (var_id, candidate) in &self.single_matched {
-      if let Some(m) = var_matchers.get(var_id) {
-        if m.match_node_with_env(candidate.clone(), &mut env).is_none() {
-          return false;
-        }
+    // a constraint can capture variables that are constrained themselves: those are checked as well
+    let constrained = |e: &Self| -> Vec<MetaVariableID> {
+      let mut keys: Vec<_> = e
+        .single_matched
+        .keys()
+        .filter(|k| var_matchers.contains_key(*k))
+        .cloned()
+        .collect();
+      keys.sort();
+      keys
+    };
+    let mut done = HashSet::new();
+    let mut pending = constrained(self);
+    while let Some(var_id) = pending.pop() {
+      if !done.insert(var_id.clone()) {
+        continue;
       }
+      let (Some(m), Some(candidate)) = (
+        var_matchers.get(&var_id),
+        env.single_matched.get(&var_id).cloned(),
+      ) else {
+        continue;
+      };
+      if m.match_node_with_env(candidate, &mut env).is_none() {
+        return false;
+      }
+      pending.extend(
+        constrained(env.as_ref())
+          .into_iter()
+          .filter(|k| !done.contains(k)),
+      );
     }
     if let Cow::Owned(env) = env {
       *self = env;
